@@ -289,6 +289,9 @@ def run(ctx, rep) -> None:
     rep.rule("C03.10", "inverse-root selection per tensor order (override 0 -> default rule 2, n -> n, sequence -> entry of that order); the gradient lists handed to the preconditioner are read-only inputs (the direction is computed on a copy)")
     rep.attempt("inverse_root_selection", inverse_root_selection, ctx, rep, "C03.10")
     rep.attempt("gradients_are_inputs", gradients_are_inputs, ctx, rep, "C03.10")
+    from .c09 import bias_correction_every_step
+
+    rep.attempt("bias_correction_every_step", bias_correction_every_step, ctx, rep, "C03.6")
     from .c12 import defaults_agree_with_configs
 
     rep.attempt("defaults_agree_with_configs", defaults_agree_with_configs, ctx, rep, "C03.9")
